@@ -24,6 +24,8 @@ pub struct IdSpec {
     pub generation: u64,
     pub ipv6: bool,
     pub idx: u16,
+    #[serde(default)]
+    pub mapped: bool,
 }
 
 #[derive(Clone, Debug, Serialize, Deserialize)]
@@ -66,7 +68,9 @@ fn mk_id(s: &IdSpec) -> Id {
         cut -= 1;
     }
     name.truncate(cut);
-    let addr: SocketAddr = if s.ipv6 { format!("[2001:db8::{:x}]:{}", s.idx + 1, 9000 + s.idx).parse().unwrap() } else { format!("10.7.{}.{}:{}", s.idx / 250, 1 + s.idx % 250, 9000 + s.idx).parse().unwrap() };
+    let addr: SocketAddr = if s.mapped {
+        SocketAddr::new(std::net::IpAddr::V6(std::net::Ipv4Addr::new(10, 7, (s.idx / 250) as u8, (1 + s.idx % 250) as u8).to_ipv6_mapped()), 9000 + s.idx)
+    } else if s.ipv6 { format!("[2001:db8::{:x}]:{}", s.idx + 1, 9000 + s.idx).parse().unwrap() } else { format!("10.7.{}.{}:{}", s.idx / 250, 1 + s.idx % 250, 9000 + s.idx).parse().unwrap() };
     Id { node_id: name, generation: s.generation, addr }
 }
 
@@ -249,7 +253,7 @@ fn gen(seed: u64) -> (WCfg, Vec<WCmd>) {
         let nd = if r.chance(0.1) { r.range(20, 200) } else { r.below(6) } as usize;
         let digest: Vec<MemberSpec> = (0..nd)
             .map(|i| MemberSpec {
-                id: IdSpec { name_len: *r.pick(&[2usize, 3, 10, 255, 256, 300]), generation: *r.pick(&[0u64, 1, u64::MAX, 1 << 40]), ipv6: r.chance(0.4), idx: (i as u16) + 10 * (r.below(3) as u16) },
+                id: IdSpec { name_len: *r.pick(&[2usize, 3, 10, 255, 256, 300]), generation: *r.pick(&[0u64, 1, u64::MAX, 1 << 40]), ipv6: r.chance(0.4), idx: (i as u16) + 10 * (r.below(3) as u16), mapped: r.chance(0.1) },
                 hb: *r.pick(&[1u64, 2, 1 << 33, u64::MAX - 1]),
                 gc: r.below(5),
                 mv: r.below(9),
@@ -271,7 +275,7 @@ fn gen(seed: u64) -> (WCfg, Vec<WCmd>) {
                     })
                     .collect();
                 DeltaMember {
-                    id: IdSpec { name_len: *r.pick(&[2usize, 10, 300]), generation: r.below(2), ipv6: r.chance(0.4), idx: 100 + i as u16 },
+                    id: IdSpec { name_len: *r.pick(&[2usize, 10, 300]), generation: r.below(2), ipv6: r.chance(0.4), idx: 100 + i as u16, mapped: r.chance(0.1) },
                     gc: if r.chance(0.7) { 0 } else { r.below(4) },
                     from: if r.chance(0.7) { 0 } else { r.below(4) },
                     kvs,
